@@ -463,6 +463,82 @@ def ionize(rng, mol):
     return m
 
 
+MULTI_METALS = [29, 30, 80, 26, 78, 46, 27, 28, 48, 13, 22, 50]
+
+
+def _merge_on_metal(insts, metal_ids):
+    """several instantiated ligand patterns sharing ONE metal atom (the metal of the first instance)"""
+    atoms = dict(insts[0][0])
+    bonds = list(insts[0][1])
+    keep = metal_ids[0]
+    shift = max(atoms) + 1
+    for inst, mid in zip(insts[1:], metal_ids[1:]):
+        ren = {n: (keep if n == mid else n + shift) for n in inst[0]}
+        for n, v in inst[0].items():
+            if n != mid:
+                atoms[ren[n]] = v
+        for a, b, o in inst[1]:
+            bonds.append((ren[a], ren[b], o))
+        shift = max(atoms) + 1
+    return atoms, bonds
+
+
+def multi_ligand_instances(ctx, counts=(2, 3), mixtures=10):
+    """metal centres carrying 2..k copies of the SAME ligand pattern (every rule with exactly one `M` atom), and mixtures of
+    ligands of two different rules on one metal: the matches of one rule share the metal atom, which is what `any_atoms`
+    of the metal-organic rules is for. The metal is the first of MULTI_METALS for which the drawing is valence-valid."""
+    tabs = real_tables()
+    out = []
+    metal_rules = []
+    for tname, recs in _state['std'].items():
+        for idx, rec in enumerate(recs):
+            ms = [n for n, a in rec['atoms'] if a['kind'] == 'metal']
+            if len(ms) == 1:
+                metal_rules.append((tname, idx, rec, ms[0]))
+
+    def draw(parts):
+        # parts: [(tname, idx, rec, metal_id)], same metal element for all
+        last = None
+        for z in MULTI_METALS:
+            insts = []
+            for _t, _i, rec, _m in parts:
+                inst = None
+                for _ in range(6):
+                    inst = instantiate(rec, ctx.rng, [z], metal_charge=0)
+                    if inst is not None:
+                        break
+                if inst is None:
+                    return None
+                insts.append(inst)
+            try:
+                atoms, bonds = _merge_on_metal(insts, [p[3] for p in parts])
+                mol = build(atoms, bonds)
+            except Exception:
+                continue
+            if is_valid(mol):
+                return mol
+            last = mol
+        return last  # no tabulated metal makes the drawing valence-valid: still an input for the idempotence / conversion clauses
+
+    for tname, idx, rec, mid in metal_rules:
+        for k in counts:
+            mol = draw([(tname, idx, rec, mid)] * k)
+            if mol is None:
+                continue
+            try:
+                nm = sum(1 for _ in tabs[tname][idx][0].get_mapping(mol, automorphism_filter=False))
+            except Exception:
+                continue
+            if nm >= k:
+                out.append((f'multi:{tname}[{idx}]x{k}', mol, [], (tname, idx)))
+    for j in range(mixtures):
+        a, b = ctx.rng.sample(metal_rules, 2)
+        mol = draw([a, b, a] if ctx.rng.random() < 0.5 else [a, b])
+        if mol is not None:
+            out.append((f'mix:{a[0]}[{a[1]}]&{b[0]}[{b[1]}]#{j}', mol, [], None))
+    return out
+
+
 def graft(rng, base, group, fillers):
     """base molecule with `group` attached through one of its CH3 fillers to an H-bearing carbon of base (or as a separate
     component when there is no such pair)."""
@@ -494,6 +570,8 @@ EXTRA = ['CC(=O)[O-].[NH4+]', 'C[NH3+].[Cl-]', '[Na+].CC(=O)[O-]', 'CC(=O)O.CN',
          'O=C1NC=CC=C1', 'Oc1ccccn1', 'CC(O)=CC', 'CC(=O)CC', 'NC(N)=N', 'OC1=NC(O)=NC=C1', 'C1=CC=C[CH-]1.[Fe+2].C1=CC=C[CH-]1',
          'c1cnc[nH]1', 'c1ccc2[nH]cnc2c1', 'c1cn[nH]c1', 'c1nc[nH]n1', 'O=c1[nH]cnc2nc[nH]c12', 'Cc1cc(C)n[nH]1', 'c1ccc2[nH]nnc2c1',
          'Cc1ncc[nH]1', 'c1ccc(cc1)-c1cnc[nH]1', 'CC(=O)Cc1ccccc1', 'OC1=CC=CC=N1', 'O=C1NC(=O)C=C1', 'N#Cc1ccc2[nH]c(C)c(C)c2c1',
+         'N#C[Hg]C#N', 'N#C[Zn]C#N', 'N#C[Fe](C#N)C#N', 'N#C[Fe](C#N)(C#N)C#N', 'O=C=N[Zn]N=C=O', '[Cu](N=C=O)N=C=O', 'N#CO[Zn]OC#N',
+         'N#CS[Hg]SC#N', 'C[N+](C)(C)[Pt][N+](C)(C)C', 'C[P+](C)(C)[Pt][P+](C)(C)C', 'N#C[Hg]SC#N', 'C[O+](C)[Zn][O+](C)C',
          '[Fe]C#N', 'N#C[Cu]', 'O=C=N[Pd]', 'C[N+](C)(C)[Pt]', '[CH2-][N+]#N', '[N-]=[N+]=NC', 'CN=N#N', '[O-][n+]1ccccc1',
          'C1=CC=CC=[N+]1[O-]', 'CC[S](=O)(=O)[O-].[K+]', 'OP(O)(O)=O', '[O-]P([O-])([O-])=O.[Na+].[Na+].[Na+]']
 
@@ -527,6 +605,7 @@ def molecule_pool(ctx):
     _state['missing_instances'] = missing
     pool += inst
     pool += overlap_instances(ctx, 1 if ctx.quick else 3)
+    pool += multi_ligand_instances(ctx, (2, 3) if ctx.quick else (2, 3, 4), 10 if ctx.quick else 40)
     if not ctx.quick:
         g = grid_instances(ctx)
         pool += g
@@ -1187,6 +1266,79 @@ def tautomer_choice_made(pair):
     return False
 
 
+def _mapping_for(pat, mol, match):
+    for mp in pat.get_mapping(mol, automorphism_filter=False):
+        if set(mp.values()) == match:
+            return mp
+    return None
+
+
+def overlap_skip_mechanism(ints, ft=True):
+    """is a second-pass conversion explained by the recorded overlap-skip finding? True only if every rule application of the
+    second standardize() call is a match that shares atoms with a first-pass application of the SAME rule and every shared
+    atom is, in both matches, the image of a plain context atom of the pattern: not rewritten by atom_fix / bonds_fix, not
+    listed in any_atoms, not an `A` / `M` query atom. (A metal shared by two ligands, or any rewritten atom, is NOT this.)"""
+    from chython.periodictable import AnyElement, AnyMetal
+    try:
+        m0, _ = wire.ints_to_mol(ints, calc=True)
+        m1 = m0.copy()
+        log1 = m1.standardize(logging=True, fix_tautomers=ft)
+        m1b = m1.copy()
+        log2 = m1b.standardize(logging=True, fix_tautomers=ft)
+    except Exception:
+        return False
+    names = pattern_names()
+    second = [(set(match), text) for match, r, text in log2 if r >= 0]
+    if not second:
+        return False
+    for match2, text in second:
+        if text not in names:
+            return False
+        t, i = names[text]
+        pat, atom_fix, bonds_fix, any_atoms, _taut = real_tables()[t][i]
+        touched = set(atom_fix) | {x for a, b, _o in bonds_fix for x in (a, b)} | set(any_atoms)
+        firsts = [set(match) for match, r, tx in log1 if r >= 0 and tx == text and set(match) & match2]
+        if not firsts:
+            return False
+        mp2 = _mapping_for(pat, m1, match2)
+        if mp2 is None:
+            return False
+        inv2 = {v: k for k, v in mp2.items()}
+        for match1 in firsts:
+            mp1 = _mapping_for(pat, m0, match1)
+            if mp1 is None:
+                return False
+            inv1 = {v: k for k, v in mp1.items()}
+            for x in match1 & match2:
+                for u in (inv1[x], inv2[x]):
+                    if u in touched or isinstance(pat.atom(u), (AnyElement, AnyMetal)):
+                        return False
+    return True
+
+
+def competing_resonance_pairs(ints):
+    """the recorded fix_resonance numbering dependence needs a choice: at least two anion starts or two cation ends"""
+    try:
+        m, _ = wire.ints_to_mol(ints, calc=True)
+        entries, exits, rads, *_ = m._Resonance__entries()
+        return len(entries) >= 2 or len(exits) >= 2 or len(rads) >= 3
+    except Exception:
+        return False
+
+
+def unbalanced_salt(ints):
+    """the recorded neutralize numbering dependence needs a choice: donors and acceptors both present, in different numbers"""
+    try:
+        from chython.algorithms.tautomers._acid import stripped_rules as acid
+        from chython.algorithms.tautomers._base import stripped_rules as base
+        m, _ = wire.ints_to_mol(ints, calc=True)
+        d = {mp[1] for q in acid for mp in q.get_mapping(m, automorphism_filter=False)}
+        a = {mp[1] for q in base for mp in q.get_mapping(m, automorphism_filter=False)}
+        return bool(d) and bool(a) and len(d) != len(a)
+    except Exception:
+        return False
+
+
 def signature(ints, op, check, ft=False):
     """smallest stable description of what fails where: operation, clause and - where one can be isolated - the rule
     (by its SMARTS) or sub-operation that already breaks the clause on its own."""
@@ -1204,15 +1356,15 @@ def signature(ints, op, check, ft=False):
             m0, _ = wire.ints_to_mol(ints, calc=True)
             r1 = [t for _m, r, t in m0.standardize(logging=True, fix_tautomers=ft) if r >= 0]
             r2 = [t for _m, r, t in m0.standardize(logging=True, fix_tautomers=ft) if r >= 0]
-            if r2 and set(r2) <= set(r1):
-                # a rule that fired in the first pass fires again in the second: a match that was skipped because it
-                # overlapped an earlier match of the same rule (on an atom the rule does not rewrite) is never retried
+            if r2 and set(r2) <= set(r1) and overlap_skip_mechanism(ints, ft):
+                # a match that was skipped because it shares a plain context atom (not rewritten, not any_atoms, not A/M) with
+                # an earlier match of the same rule is never retried within the call
                 return ['C14/standardize/idempotent/overlap-skip']
             if r2:
                 return [f'C14/standardize/idempotent/{x}' for x in sorted(set(r2))]
             m1, _ = wire.ints_to_mol(ints, calc=True)
             m1.standardize(fix_tautomers=ft)
-            if m1.fix_resonance():
+            if r1 and m1.fix_resonance():
                 # the rules created a dipole that the resonance step (which runs *before* the rules) neutralises next time
                 return ['C14/standardize/idempotent/resonance-after-rules']
         except Exception:
@@ -1223,14 +1375,18 @@ def signature(ints, op, check, ft=False):
             m1.clean_stereo()
             m1.canonicalize(fix_tautomers=ft)
             lg = molgen.rebuild(m1).canonicalize(fix_tautomers=ft, logging=True)
-            if any(t == 'recharged' for _m, _r, t in lg):
+            ring_carbanion = any(a.atomic_number == 6 and a.charge == -1 and 5 in a.ring_sizes for _n, a in m1.atoms())
+            if ring_carbanion and any(t == 'recharged' for _m, _r, t in lg):
                 return ['C14/canonicalize/idempotent-rebuilt/recharged']
         except Exception:
             pass
     if op in ('standardize', 'canonicalize', 'fix_resonance') and check in ('renumbering', 'idempotent-rebuilt', 'idempotent'):
         c = renumber_culprits(ints)
         if c:
-            return ['C14/fix_resonance/renumbering' if x == 'fix_resonance' else f'C14/standardize/renumbering/{x}' for x in c]
+            fr = 'C14/fix_resonance/renumbering' if competing_resonance_pairs(ints) else 'C14/fix_resonance/renumbering/no-competing-pairs'
+            return [fr if x == 'fix_resonance' else f'C14/standardize/renumbering/{x}' for x in c]
+    if op == 'neutralize' and check == 'renumbering' and not unbalanced_salt(ints):
+        return ['C14/neutralize/renumbering/balanced']
     return [base]
 
 
@@ -1347,6 +1503,21 @@ def accounting_oracle(ints, ft=True):
     return []
 
 
+def twice_oracle(ints, op):
+    """idempotence alone (no other clause in front of it): the second call must report nothing and change nothing"""
+    m, _ = wire.ints_to_mol(ints, calc=True)
+    valid = is_valid(m)
+    try:
+        apply_op(op, m, True)
+        s1, w1 = str(m), wire.mol_to_ints(m)
+        apply_op(op, m, True)
+    except Exception as e:
+        return [('never-fails', f'{type(e).__name__}: {e}')] if valid else []
+    if str(m) != s1 or wire.mol_to_ints(m) != w1:
+        return [('idempotent', f'{s1} -> {str(m)}')]
+    return []
+
+
 def converted_oracle(ints, tname, idx):
     """every rule applied to its own pattern instantiated as a molecule converts it: after standardize() the pattern does not
     match any more. The documented exception is the abort `bad charge formed` for an atom that already carries +4."""
@@ -1365,7 +1536,7 @@ def converted_oracle(ints, tname, idx):
         return []
     s1 = str(m)
     m.standardize(fix_tautomers=True)
-    second = next(pat.get_mapping(m, automorphism_filter=False), None) is None
+    second = next(pat.get_mapping(m, automorphism_filter=False), None) is None and overlap_skip_mechanism(ints, True)
     return [('rule-not-converted', f'{str(pat)} still matches {s1} after standardize()', second)]
 
 
@@ -1406,6 +1577,18 @@ def relational(ctx, pool, programs):
             ctx.fail(sg, f'{lab} [{str(mol)}]: {detail}', {'kind': 'converted', 'wire': ints, 'table': _h[0], 'index': _h[1], 'smiles': str(mol)})
         for check, detail in accounting_oracle(ints):
             ctx.fail(sig('standardize', check), f'{lab} [{str(mol)}]: {detail}', {'kind': 'accounting', 'wire': ints, 'smiles': str(mol)})
+    # several ligands on one metal: one call must do all of them
+    for lab, mol, _f, _h in pool:
+        if not lab.startswith(('multi:', 'mix:')):
+            continue
+        ints = wire.mol_to_ints(mol)
+        ctx.count(('R', 'multi-ligand', str(mol)))
+        ctx.dist('R:multi-ligand-metal')
+        for op in ('standardize', 'canonicalize'):
+            for check, detail in twice_oracle(ints, op):
+                for sg in signature(ints, op, check, True):
+                    ctx.fail(sg, f'{op} on {lab} [{str(mol)}]: {check}: {detail}',
+                             {'kind': 'twice', 'op': op, 'wire': ints, 'smiles': str(mol)})
     order = list(range(len(pool)))
     ctx.rng.shuffle(order)
     done = 0
@@ -1416,7 +1599,9 @@ def relational(ctx, pool, programs):
         lab, mol, _f, _h = pool[i]
         if len(mol) > 90:
             continue
-        if 'xmetal:' in lab:
+        if 'xmetal:' in lab or lab.startswith(('multi:', 'mix:')):
+            # arbitrary metals / several ligands on one metal: the metal's oxidation state is usually untabulated, so only the
+            # idempotence, conversion and ledger clauses (above) and the correspondence streams run on them
             continue
         ints = wire.mol_to_ints(mol)
         corpus = lab.startswith('corpus[') and '+' not in lab
@@ -1471,6 +1656,12 @@ def search(ctx):
                     if not second:
                         ctx.fail(f'C14/standardize/{check}/{str(tabs[tname][idx][0])}', f'{tname}[{idx}] [{str(mol)}]: {detail}',
                                  {'kind': 'converted', 'wire': ints, 'table': tname, 'index': idx, 'smiles': str(mol)})
+    for lab, mol, _f, _h in multi_ligand_instances(ctx, (2, 3, 4), 20):
+        ints = wire.mol_to_ints(mol)
+        for op in ('standardize', 'canonicalize'):
+            for check, detail in twice_oracle(ints, op):
+                for sg in signature(ints, op, check, True):
+                    ctx.fail(sg, f'{op} on {lab} [{str(mol)}]: {check}: {detail}', {'kind': 'twice', 'op': op, 'wire': ints, 'smiles': str(mol)})
     if ctx.failures:
         return
     bad = {lab for _s, lab in _state.get('disagreeing', [])}
@@ -1481,7 +1672,7 @@ def search(ctx):
     for lab, mol, _f, _h in first + rest:
         if time.time() - t0 > budget or len(ctx.failures) >= 8:
             break
-        if len(mol) > 90 or 'xmetal:' in lab:
+        if len(mol) > 90 or 'xmetal:' in lab or lab.startswith(('multi:', 'mix:')):
             continue
         ints = wire.mol_to_ints(mol)
         for op in OPS:
@@ -1532,6 +1723,9 @@ def probe(inp):
     if kind == 'documented':
         f = documented_oracle(inp['raw'], inp['result'])
         return bool(f), f[0][1] if f else f'{inp["raw"]} standardizes to the documented {inp["result"]}'
+    if kind == 'twice':
+        f = twice_oracle(inp['wire'], inp['op'])
+        return bool(f), f'{inp["op"]} twice on {inp.get("smiles")}: ' + (f[0][1] if f else 'second call changes nothing')
     if kind == 'accounting':
         f = accounting_oracle(inp['wire'])
         return bool(f), f[0][1] if f else f'{inp.get("smiles")}: the log accounts for the charge change'
